@@ -50,7 +50,9 @@ Eff(b)      == IF b = "unset" THEN "v0" ELSE b          \* CidBuilder(): nil fie
 Before(s, j, i) == \/ Rank(NameOf(s[j])) < Rank(NameOf(s[i]))
                    \/ (Rank(NameOf(s[j])) = Rank(NameOf(s[i])) /\ j < i)
 Pos(s, i) == Cardinality({j \in 1..Len(s) : Before(s, j, i)}) + 1
-SortLinks(s) == [k \in 1..Len(s) |-> s[CHOOSE i \in 1..Len(s) : Pos(s, i) = k]]
+SortLinks(s) == LET pos == [i \in 1..Len(s) |-> Pos(s, i)]      \* functions are built once (eagerly)
+                    inv == [k \in 1..Len(s) |-> CHOOSE i \in 1..Len(s) : pos[i] = k]
+                IN  [k \in 1..Len(s) |-> s[inv[k]]]
 
 \* property side: declarative
 ByName(s, n) == SelectSeq(s, LAMBDA l : NameOf(l) = n)
